@@ -143,14 +143,13 @@ func CheckC14(run *ev.Run) {
 		for _, v := range []string{vAB, vBA} {
 			st["verdict:"+v]++
 		}
+		corrBroken := ""
 		if vAB != "agree" || vBA != "agree" {
 			if vAB == "order-sensitive" || vBA == "order-sensitive" {
 				st["skipped-order-sensitive"]++
 				continue
 			}
-			run.Broken("corr:C14", "Lean model and diff.Compare disagree: "+vAB+" / "+vBA,
-				s.Replay(map[string]interface{}{"model_ab": mAB.Raw, "real_ab": rAB.Raw, "model_ba": mBA.Raw, "real_ba": rBA.Raw}))
-			continue
+			corrBroken = vAB + " / " + vBA
 		}
 		if rAB.R != "ok" || rBA.R != "ok" {
 			st["not-ok"]++
@@ -184,6 +183,11 @@ func CheckC14(run *ev.Run) {
 			key = ""
 		}
 		run.Case(key)
+		if corrBroken != "" && len(onlyAB)+len(onlyBA) == 0 {
+			run.Broken("corr:C14", "Lean model and diff.Compare disagree: "+corrBroken,
+				s.Replay(map[string]interface{}{"model_ab": mAB.Raw, "real_ab": rAB.Raw, "model_ba": mBA.Raw, "real_ba": rBA.Raw}))
+			continue
+		}
 		if len(onlyAB)+len(onlyBA) == 0 {
 			st["mirrored"]++
 			if len(run.Samples) < 3 && len(rAB.Diffs) > 1 {
